@@ -14,7 +14,8 @@ LEVEL_TEXT = ("Decides two structural necessary conditions. (a) closure pairing 
               "base domain; when that operation is the same-named one its arguments are the method's own parameters (or their "
               "accepted renamings) in the same positions; queries return the base domain's answer; products consult BOTH "
               "components. The exactness of closure / join / meet / forget in intervals, zones and octagons (sentences 1-2) is a "
-              "numerical-algorithmic property that no static rule here decides; only the pairing (a) of its mechanism is.")
+              "numerical-algorithmic property that no static rule here decides; only the pairing (a) of its mechanism is."
+              " The octagon meet closes relations on the bound-skipping view without re-deriving bounds (known finding F78).")
 ASSUMPTIONS = ["renaming helpers of the region domain (rename_linear_expr, rename_linear_cst, get_or_insert_gvars) are faithful "
                "projections (their own correctness is covered by C15/C03 rules, not here)",
                "base domains themselves are exact on their language (NOT decided)"]
